@@ -12,6 +12,10 @@ import (
 )
 
 func main() {
+	if len(os.Args) >= 2 && os.Args[1] == "c13child" {
+		cmdC13Child()
+		return
+	}
 	if len(os.Args) < 5 {
 		fmt.Fprintln(os.Stderr, "usage: verifharness <cmd> <seed> <tier> <outdir> [args]")
 		os.Exit(2)
@@ -23,6 +27,10 @@ func main() {
 		cmdC20(seed, tier, outdir)
 	case "c18":
 		cmdC18(seed, tier, outdir)
+	case "c17":
+		cmdC17(seed, tier, outdir)
+	case "c13":
+		cmdC13(seed, tier, outdir)
 	default:
 		fmt.Fprintln(os.Stderr, "unknown command", os.Args[1])
 		os.Exit(2)
